@@ -963,3 +963,45 @@ func VerifC13Variations() (res []VerifC13Variation) {
 	})
 	return res
 }
+
+// ---------------------------------------------------------------------------
+// Round 7: the grammar of upstream lines (dns.upstream_dns,
+// dns.local_ptr_upstreams).  A line is
+//
+//	[ "[/" domain { "/" domain } "/]" ]  upstream        | "#" comment
+//
+// where upstream is "#" (only after a domain prefix: "use the default
+// upstreams for these domains"), a plain address with or without a port, or
+// scheme://host[:port][/path] with scheme one of udp, tcp, tls, https, h3,
+// quic, sdns.  Step 10 concerns exactly the quic:// upstreams WITHOUT a port
+// (":784" is inserted after the host, inside whatever prefix the line has);
+// every other line, and the domain prefix of every line, is kept byte for
+// byte.  VerifC13UpstreamGrammar is the product prefix x upstream as a file
+// of version ver holds it (from version 10 on a QUIC upstream without a port
+// means port 853, so the lines a version-9 file had without one carry :784).
+func VerifC13UpstreamGrammar(ver int) (res []any) {
+	prefixes := []string{"", "[/lan/]", "[/corp.example/internal.example/]", "[/168.192.in-addr.arpa/]"}
+	ups := []string{
+		"192.168.1.1", "192.168.1.1:5353", "[2001:db8::1]:53", "udp://9.9.9.9", "tcp://9.9.9.9:53",
+		"tls://192.168.1.1", "tls://dns.example.org:8853", "https://dns.example.org/dns-query", "h3://dns.example.org/dns-query",
+		"quic://dns.example.org", "quic://dns.example.org:8853", "quic://192.168.1.2", "quic://192.168.1.2:784",
+		"quic://[2001:db8::2]", "quic://[2001:db8::2]:8853", "quic://dns.example.org/path",
+		"sdns://AQMAAAAAAAAAETk0LjE0MC4xNC4xNDo1NDQzINErR_JS3PLCu_iZEIbq95zkSV2LFsigxDIuUso_OQhzIjIuZG5zY3J5cHQuZGVmYXVsdC5uczEuYWRndWFyZC5jb20",
+	}
+	ported := map[string]string{
+		"quic://dns.example.org": "quic://dns.example.org:784", "quic://192.168.1.2": "quic://192.168.1.2:784",
+		"quic://[2001:db8::2]": "quic://[2001:db8::2]:784", "quic://dns.example.org/path": "quic://dns.example.org:784/path",
+	}
+	for _, p := range prefixes {
+		for _, u := range ups {
+			if w, has := ported[u]; has && ver >= 10 {
+				u = w
+			}
+			res = append(res, p+u)
+		}
+		if p != "" {
+			res = append(res, p+"#")
+		}
+	}
+	return append(res, "# a comment", "#[/lan/]quic://commented.example")
+}
